@@ -643,5 +643,5 @@ def replay(ctx, path):
 
 MANIFEST = dict(
     technique='Coq proof (transliteration of eval_ternary_equality and the comparison / logic / between / in evaluators; symmetry, negation, mirror, Kleene, trichotomy and between/in/conjunction laws for all values) with exhaustive-alphabet model/code correspondence',
-    text="Theorems (coq/Props/C09.v, closed under the global context) hold for all values of any nesting depth (contexts with unique sorted keys): 'and'/'or' are the Kleene tables with every non-boolean as null; a = b and b = a agree; != is the negation; < / > and <= / >= are mirror images for all pairs including mixed kinds; strings are ordered by code point and this is proved to be the order of their UTF-8 bytes (what Rust compares) for all strings; for numbers, strings and dates exactly one of <, =, > holds, <= is (< or =), and between, in [a..b] and the conjunction agree with open ends as strict comparisons. Tied to feel-evaluator/src/builders.rs by running all ordered pairs x 9 operators and the triples of a value alphabet plus random numbers / strings / dates through parse + evaluate; the laws are evaluated on the implementation's own answers and all answers are compared with the model.",
+    text="Theorems (coq/Props/C09.v, closed under the global context) hold for all values of any nesting depth (contexts with unique sorted keys): 'and'/'or' are the Kleene tables with every non-boolean as null; a = b and b = a agree; != is the negation; < / > and <= / >= are mirror images for all pairs including mixed kinds; strings are ordered by code point and this is proved to be the order of their UTF-8 bytes (what Rust compares) for all strings; for numbers, strings and dates exactly one of <, =, > holds, <= is (< or =), and between, in [a..b] and the conjunction agree with open ends as strict comparisons. The independently written evaluator model of C01 (coq/C01/Syntax.v: veq, cmp_lt/cmp_le, and3/or3, between_eval, in_range, in_eval) is proved to be the same functions on all values both models express (coq/C09/LinkC01.v, C09_equality_is_evaluator_equality ... C09_in_is_evaluator_in), so these laws also hold for C01's evaluator (C09_evaluator_equality_symmetric, C09_evaluator_trichotomy, C09_evaluator_between_is_conjunction, ...). Tied to feel-evaluator/src/builders.rs by running all ordered pairs x 9 operators and the triples of a value alphabet plus random numbers / strings / dates through parse + evaluate; the laws are evaluated on the implementation's own answers and all answers are compared with the model.",
     note='Trusted: Coq kernel + vm_compute, hand-written model of builders.rs and of the comparison primitives (correspondence-checked), Rust strings being UTF-8 and compared bytewise (byte order = code-point order is proved, not trusted), exactness of decNumber compare, harness. Local times / named zones are out of scope (C14/C15).')
